@@ -12,6 +12,8 @@
  *                             followed by one observation line (not compared with the model, judged only)
  *                               obs ticks=<instructions executed> maxcsp=<max csp index> maxsp=<max sp index>
  *                                   csp=<csp index after> sp=<sp index after> cost=<budget> depth=<MaxCallDepth> stack=<n>
+ *   lpc <path> <hex>          write generated LPC source to <mudlib>/<path>
+ *   shape <term>              ignored (the abstract shape of the generated program, read by the model)
  *   mset <fn> <int>           master()-><fn>(<int>): switches of the C04 verification master
  *   sz <constructor> <args...> size decision of one value constructor, evaluated by the real driver through the LPC
  *                             object /c04/sizes (see props/c04.py for the argument conventions); prints
@@ -33,6 +35,7 @@ static long verif_max_csp, verif_max_sp;
 #endif
 
 static int c04_stack = 0;
+static int c04_hc = 0;	/* the master's error handler completes a catch: error_state at the driver level is not compared */
 
 static int c04_ev (int n, char **tok, int quiet)
 {
@@ -88,7 +91,9 @@ static int c04_ev (int n, char **tok, int quiet)
   free_string (shared);
   if (quiet)
     return 1;
-  if (rc == 1)
+  if (rc == 1 && c04_hc)
+    vh_out ("r err");
+  else if (rc == 1)
     vh_out ("r err es=%d", es);
   else if (rc == 2)
     vh_out ("r nofn");
@@ -100,10 +105,42 @@ static int c04_ev (int n, char **tok, int quiet)
   return 1;
 }
 
+static int hexval (int c)
+{
+  return c >= '0' && c <= '9' ? c - '0' : c >= 'a' && c <= 'f' ? c - 'a' + 10 : -1;
+}
+
 static int c04_cmd (char *line)
 {
   char *tok[64];
   char copy[8192];
+  if (!strncmp (line, "shape ", 6))
+    return 1;			/* the abstract shape of the program: for the model only */
+  if (!strncmp (line, "lpc ", 4))
+    {
+      /* lpc <path> <hex>: write generated LPC source below the mudlib directory (cwd) */
+      char path[256];
+      const char *p = line + 4, *sp1 = strchr (p, ' ');
+      FILE *f;
+      if (!sp1 || sp1 - p >= (long) sizeof path - 2 || p[0] != '/' || strstr (p, ".."))
+        {
+          vh_out ("badcmd lpc");
+          return 1;
+        }
+      path[0] = '.';
+      memcpy (path + 1, p, sp1 - p);
+      path[1 + (sp1 - p)] = 0;
+      f = fopen (path, "w");
+      if (!f)
+        {
+          vh_out ("badcmd lpc open");
+          return 1;
+        }
+      for (p = sp1 + 1; hexval (p[0]) >= 0 && hexval (p[1]) >= 0; p += 2)
+        fputc (hexval (p[0]) * 16 + hexval (p[1]), f);
+      fclose (f);
+      return 1;
+    }
   snprintf (copy, sizeof copy, "%s", line);
   int n = vh_split (copy, tok, 64);
   if (n == 0)
@@ -142,6 +179,8 @@ static int c04_cmd (char *line)
           push_number (atoll (tok[2]));
           eval_cost = 100000;
           apply_master_ob (tok[1], 1);
+          if (!strcmp (tok[1], "set_handler_catches"))
+            c04_hc = atoi (tok[2]);
           pop_context (&econ);
         }
       else
